@@ -51,9 +51,9 @@ def probes(events):
     for ev in events:
         k, p = ev[4], ev[5]
         if k == "state":
-            if p["where"] == "aio_submit" and p["old"] == "READY" and p["new"] == "WAITING":
+            if p["old"] == "READY" and p["new"] == "WAITING":
                 hit("start-aborted-lock-error")
-            elif p["where"] == "aio_submit" and p["new"] == "RUNNING":
+            elif p.get("adopt"):
                 hit("adopted-running-process")
             elif p["where"] == "dependencychanged" and p["new"] == "ERROR":
                 hit("cancelled-by-failed-dependency")
@@ -141,6 +141,8 @@ def execute(prop, seed, scn=None, replay=None, full=False, tier="quick", max_ste
     r = Runner(scn, seed, replay=replay, max_steps=max_steps)
     try:
         status = r.run()
+        if r.k.harness_exc:
+            return {"harness": "simulator failure: " + r.k.harness_exc, "seed": seed}
         final = r.final()
         events = r.k.events
         own = OWN[prop]
